@@ -104,6 +104,17 @@ fn sweep(cx: &mut Ctx, t: &mut Tally, label: &str, mut run: impl FnMut(u32, &mut
             Some((cb, _)) => {
                 t.fired += 1;
                 cx.nontrivial += 1;
+                if at + 1 == c {
+                    let (hist, op) = (cx.here.path.clone(), cx.here.op.clone());
+                    cx.sample(|| {
+                        J::obj()
+                            .set("history", hist)
+                            .set("op", op)
+                            .set("user_callbacks_in_op", c)
+                            .set("panic_injected_at", format!("callback #{at} ({})", CB_NAMES[cb as usize]))
+                            .set("judged", "ledger during/after unwinding; survivors well-formed, exercised, dropped")
+                    });
+                }
                 cx.class(&format!("{label}:panic_in_{}", CB_NAMES[cb as usize]));
             }
             None => {
